@@ -80,6 +80,22 @@ static void* M__ZNSo9_M_insertIbEERSoT_(void* os, uint8_t v) { (void)v; return o
 static void M__ZNKSt5ctypeIcE13_M_widen_initEv(void* ct) { (void)ct; }
 static void M__ZNSt9basic_iosIcSt11char_traitsIcEE5clearESt12_Ios_Iostate(void* ios, uint32_t st) { (void)ios; (void)st; }
 
+/* __dynamic_cast for single, non-virtual inheritance (the whole AST hierarchy): walk the __si_class_type_info chain */
+#ifdef IR2C_HAVE_XG__ZTVN10__cxxabiv120__si_class_type_infoE
+static void* M___dynamic_cast(void* obj, void* src, void* dst, uint64_t hint) {
+  (void)src; (void)hint;
+  if (!obj) return 0;
+  void** vt = *(void***)obj;
+  void* ti = vt[-1];
+  void* si_vt = (void*)&XG__ZTVN10__cxxabiv120__si_class_type_infoE[2];
+  for (int i = 0; i < 8; i++) {
+    if (ti == dst) return obj;
+    if (*(void**)ti != si_vt) return 0;
+    ti = ((void**)ti)[2];
+  }
+  return 0;
+}
+#endif
 /* <cctype> in the "C" locale */
 static uint32_t M_isspace(uint32_t c) { return c == ' ' || (c >= 9 && c <= 13); }
 static uint32_t M_isdigit(uint32_t c) { return c >= '0' && c <= '9'; }
@@ -164,6 +180,8 @@ static void M__ZNSt13runtime_errorC2ERKNSt7__cxx1112basic_stringIcSt11char_trait
 static void M__ZNSt13runtime_errorC1ERKNSt7__cxx1112basic_stringIcSt11char_traitsIcESaIcEEE(void* self, void* s) { (void)self; (void)s; }
 static void M__ZNSt13runtime_errorC2EPKc(void* self, void* s) { (void)self; (void)s; }
 static void M__ZNSt13runtime_errorC1EPKc(void* self, void* s) { (void)self; (void)s; }
+static void M__ZNSt13runtime_errorC2ERKS_(void* self, void* o) { (void)self; (void)o; }
+static void M__ZNSt13runtime_errorC1ERKS_(void* self, void* o) { (void)self; (void)o; }
 static void M__ZNSt13runtime_errorD2Ev(void* self) { (void)self; }
 static void M__ZNSt13runtime_errorD1Ev(void* self) { (void)self; }
 static void* M__ZNKSt13runtime_error4whatEv(void* self) { (void)self; return (void*)""; }
